@@ -383,7 +383,11 @@ def gen_generic_case(rng, kind, n, m):
     def vals(keys):
         return "[" + ", ".join(jlit(k) for k in keys) + "]"
 
-    kf = "function(x) x.k"
+    # the same key, also computed through re-entrant library calls and lazily evaluated array elements
+    # (a comparison that forces an element may itself run a sort / set / min)
+    kf = rng.choice(["function(x) x.k", "function(x) x.k", "function(x) std.sort([x.k, x.k])[0]", "function(x) [std.sort([x.k])[0]]",
+                     "function(x) [std.set([x.k, x.k])[0], std.minArray([1, 2])]", "function(x) std.maxArray([x.k])",
+                     "function(x) [[std.sort([x.k, x.k])[1]], std.uniq([0, 0])]"])
     src = [
         "local A = %s;" % objs(ks, ""),
         "local K = %s;" % vals(ks),
